@@ -349,6 +349,9 @@ func Run(c *hx.Ctx) {
 	d.DupKeys()
 	d.Hostile()
 	d.Generate(bases)
+	if os.Getenv("C16_NOPAYER") == "" {
+		d.UnsignedPayers()
+	}
 	c.Note(fmt.Sprintf("abstract-signature validation: %d crypto-library Verify calls compared with abs_verify", d.W.AbsN))
 }
 
